@@ -125,34 +125,33 @@ func runC13(p *Program, r *Result) {
 			if fn.Parent() != nil {
 				continue // closures are visited with their parent
 			}
-			tb := p.TB(fn)
 			for i, pr := range p.producersOf(fn, isEOFValue) {
-				if pr.Kind == "store" {
-					continue // below
-				}
-				if pr.Kind == "arg" {
+				switch pr.Kind {
+				case "arg":
 					if n := calleeName(pr.At.(ssa.CallInstruction).Common()); n == "errors.Is" || strings.HasPrefix(n, "fmt.") {
 						continue // comparisons and messages do not produce an end of stream
 					}
+				case "store":
+					if _, isIdx := pr.At.(*ssa.Store).Addr.(*ssa.IndexAddr); isIdx {
+						continue
+					}
 				}
 				n++
-				// the armor reader's end-of-armor drain: only once reading the rest has succeeded
-				root := fn.String() == "(*"+pkgArmor+".armoredReader).Read"
-				_, readOK := findFact(pr.Facts, func(a Atom) bool {
-					return a.Kind == "cmp" && a.Op == "==" && a.Y.Op == "Nil" && strings.HasPrefix(short(a.X.String()), "io.ReadAll(")
-				})
-				r.Check(root && readOK, fn.String(), "produce:io.EOF#"+itoa(i), r.pos(pr.At), "armor: the end-of-armor drain, after io.ReadAll of the rest succeeded", "io.EOF is produced here; the documented producers are armor's end-of-armor drain (after a successful read of the rest) and stream.Reader.Read's probe branch")
-			}
-			for _, b := range fn.Blocks {
-				for _, in := range b.Instrs {
-					if st, ok := in.(*ssa.Store); ok && short(tb.Term(st.Val).String()) == "io.EOF" {
-						if _, isIdx := st.Addr.(*ssa.IndexAddr); isIdx {
-							continue
-						}
-						n++
-						okp := fn.String() == "(*"+pkgStream+".Reader).Read"
-						r.Check(okp, fn.String(), "produce:io.EOF", r.pos(st), "stream: after the final chunk and the probe (R02.4)", "io.EOF is stored here; the documented producers are armor's drainTrailing and stream.Reader.Read's probe branch")
-					}
+				switch fn.String() {
+				case "(*" + pkgArmor + ".armoredReader).Read":
+					// the armor reader's end-of-armor drain: only once reading the rest has succeeded
+					_, readOK := findFact(pr.Facts, func(a Atom) bool {
+						return a.Kind == "cmp" && a.Op == "==" && a.Y.Op == "Nil" && strings.HasPrefix(short(a.X.String()), "io.ReadAll(")
+					})
+					r.Check(readOK, fn.String(), "produce:io.EOF#"+itoa(i), r.pos(pr.At), "armor: the end-of-armor drain, after io.ReadAll of the rest succeeded", "io.EOF is produced on a path where reading the rest of the armor has not succeeded")
+				case "(*" + pkgStream + ".Reader).Read":
+					// after the final chunk, when the probe read itself reported io.EOF (R02.4)
+					_, probe := findFact(pr.Facts, func(a Atom) bool {
+						return a.Kind == "cmp" && a.Op == "==" && short(a.Y.String()) == "io.EOF" && strings.HasPrefix(short(a.X.String()), "invoke (io.Reader).Read(Field(Recv.src), ")
+					})
+					r.Check(probe, fn.String(), "produce:io.EOF#"+itoa(i), r.pos(pr.At), "stream: after the final chunk and the probe (R02.4)", "io.EOF is produced on a path where the probe read did not report io.EOF")
+				default:
+					r.Bad(fn.String(), "produce:io.EOF#"+itoa(i), r.pos(pr.At), "io.EOF is produced here; the documented producers are armor's end-of-armor drain and stream.Reader.Read's probe branch")
 				}
 			}
 		}
